@@ -108,15 +108,29 @@ def cases(draw):
         "deep_to_shallow": draw(st.sampled_from([None, True, False, True, False])),
         "how": draw(st.sampled_from(["once", "twice", "two_calls", "two_calls_reversed"])),
         "route": draw(st.sampled_from(["function", "function", "accessor"])),
+        "names_as": draw(st.sampled_from(["list", "list", "tuple", "iterator", "generator",
+                                          "data_arrays", "dict_keys"])),
     }
 
 
-def call(spec, ds, route, pd, d2s):
+def call(spec, ds, route, pd, d2s, names_as="list"):
     from emsarray.operations import depth as depth_ops
     if route == "accessor":
         conv = specs.bind_convention(spec, ds)
         return conv.normalize_depth_variables(positive_down=pd, deep_to_shallow=d2s)
     names = [dc["name"] for dc in spec["depths"]]
+    # the parameter is documented as an iterable of names or data arrays: any iterable will do,
+    # also one that can be walked only once
+    if names_as == "tuple":
+        names = tuple(names)
+    elif names_as == "iterator":
+        names = iter(names)
+    elif names_as == "generator":
+        names = (n for n in list(names))
+    elif names_as == "data_arrays":
+        names = [ds[n] for n in names]
+    elif names_as == "dict_keys":
+        names = dict.fromkeys(names).keys()
     return depth_ops.normalize_depth_variables(ds, names, positive_down=pd, deep_to_shallow=d2s)
 
 
@@ -131,12 +145,13 @@ def check_case(case, ctx):
         snapshot_attrs = {name: dict(v.attrs) for name, v in ds.variables.items()}
         ctx.at("C13.normalize")
         how = case["how"]
+        names_as = case.get("names_as", "list")
         if how == "two_calls":
-            out = call(spec, call(spec, ds, case["route"], pd, None), case["route"], None, d2s)
+            out = call(spec, call(spec, ds, case["route"], pd, None, names_as), case["route"], None, d2s, names_as)
         elif how == "two_calls_reversed":
-            out = call(spec, call(spec, ds, case["route"], None, d2s), case["route"], pd, None)
+            out = call(spec, call(spec, ds, case["route"], None, d2s, names_as), case["route"], pd, None, names_as)
         else:
-            out = call(spec, ds, case["route"], pd, d2s)
+            out = call(spec, ds, case["route"], pd, d2s, names_as)
         what = (f"normalize_depth_variables(positive_down={pd}, deep_to_shallow={d2s}) [{how}, "
                 f"{case['route']}]")
 
@@ -225,11 +240,11 @@ def check_case(case, ctx):
                       lambda: f"{what}: no option given but the dataset changed: {_diff(out, snapshot)}")
         # ---- idempotence
         ctx.at("C13.idempotent")
-        again = call(spec, out, case["route"], pd, d2s)
+        again = call(spec, out, case["route"], pd, d2s, names_as)
         ctx.check(again.identical(out), "C13.idempotent",
                   lambda: f"{what}: applying it again changes the dataset: {_diff(again, out)}")
         if how == "twice":
-            third = call(spec, again, case["route"], pd, d2s)
+            third = call(spec, again, case["route"], pd, d2s, names_as)
             ctx.check(third.identical(out), "C13.idempotent",
                       lambda: f"{what}: third application changes the dataset")
     # ---- documented warning for a missing positive attribute
@@ -247,6 +262,8 @@ def check_case(case, ctx):
         ctx.label("two_coordinates_on_one_dimension")
     ctx.label(f"options:{pd}/{d2s}")
     ctx.label("how:" + case["how"])
+    if case["route"] == "function":
+        ctx.label("names_as:" + case.get("names_as", "list"))
     bounds = any(dc.get("bounds") is not None for dc in spec["depths"])
     not_leading = any(specs.var_dim_names(spec, v)[0] != specs.depth_coordinate_spec(spec, v["depth"])["dim"]
                       for v in spec["vars"])
